@@ -35,6 +35,7 @@ Prof(nm, nd, rt, bd, ra, ca, rl, ab, pe, hz, dr) ==
     [name |-> nm, nodes |-> nd, roots |-> rt, body |-> bd, raises |-> ra, cancels |-> ca, rel |-> rl, abs |-> ab,
      per |-> pe, horizon |-> hz, drivers |-> dr]
 Both == {"start", "adv"}
+RetProfiles == {"q_ret", "t_ret", "sim"}
 Neg1 == 0 - 1     \* a negative relative due time: due before the current clock, runs at the current clock, sorts first
 AllProfiles == {
     \* quick: one-shot trees to depth 2 under both drivers; periodic roots with cancels; periodic children
@@ -44,6 +45,9 @@ AllProfiles == {
     \* cancels under start(): the only place where discarding a cancelled entry shows in the clock (two allowed outcomes)
     \* relative due times of exactly 0 and below 0 (with raises and both verdicts, siblings at one instant)
     Prof("q_zero",     3, 1, 2, 2, 0, {0, Neg1}, {}, {}, 4, {"adv"}),
+    \* actions that return a child's handle; the outer handle is disposed by a sibling (cancel) afterwards
+    Prof("q_ret",      3, 2, 1, 1, 1, {1}, {2}, {}, 4, {"adv"}),
+    Prof("t_ret",      4, 2, 1, 1, 1, {1}, {2}, {2}, 4, {"adv"}),
     Prof("q_cancel",   3, 2, 1, 0, 1, {1}, {2}, {}, 4, {"start"}),
     \* thorough
     Prof("t_trees",    4, 1, 2, 2, 0, {1}, {2}, {}, 4, Both),
@@ -71,13 +75,14 @@ VARIABLES prof,       \* the bounds of this scenario
           nextId, nkind, nper, depth, due0,         \* the tree
           top, body,                                \* the script (history)
           ran, meta, raises, handler, drives, amb,  \* the logs (observation)
-          rleft, cleft
+          rleft, cleft,
+          retc        \* retc[i] = the child whose handle action i RETURNED (0 = it returned nothing)
 
 cfgv == <<prof, verdict, drv>>
 tree == <<nextId, nkind, nper, depth, due0>>
 runl == <<ran, meta>>
 excl == <<raises, handler>>
-vars == <<cfgv, clock, queue, cancelled, nseq, mode, target, draining, cur, left, exc, tree, top, body,
+vars == <<cfgv, retc, clock, queue, cancelled, nseq, mode, target, draining, cur, left, exc, tree, top, body,
           runl, excl, drives, amb, rleft, cleft>>
 
 Verdicts == [Exc -> BOOLEAN]
@@ -91,6 +96,7 @@ Init == /\ prof \in {q \in AllProfiles : q.name \in Profiles}
         /\ top = <<>> /\ body = [i \in 1..prof.nodes |-> <<>>]
         /\ ran = <<>> /\ meta = <<>> /\ raises = <<>> /\ handler = <<>> /\ drives = <<>> /\ amb = FALSE
         /\ rleft = prof.raises /\ cleft = prof.cancels
+        /\ retc = [i \in 1..prof.nodes |-> 0]
 
 (* ---- scheduling through a catch layer: delegates to the inner scheduler unchanged ------ *)
 \* start() runs everything; advance_to(target) only what is due at or before the target
@@ -119,16 +125,16 @@ Enqueue(kd, d, dep) ==
 TSched == \E kd \in Kinds :
             /\ mode = "setup" /\ Len(top) < prof.roots /\ Enqueue(kd[1], kd[2], 0)
             /\ top' = Append(top, Cmd("sched_" \o kd[1], kd[2], nextId))
-            /\ UNCHANGED <<cfgv, clock, cancelled, mode, target, draining, cur, left, exc, body, runl, excl,
+            /\ UNCHANGED <<cfgv, retc, clock, cancelled, mode, target, draining, cur, left, exc, body, runl, excl,
                            drives, amb, rleft, cleft>>
 
 TGo == /\ mode = "setup" /\ Len(top) >= 1 /\ mode' = "run"
-       /\ UNCHANGED <<cfgv, clock, queue, cancelled, nseq, target, draining, cur, left, exc, tree, top, body,
+       /\ UNCHANGED <<cfgv, retc, clock, queue, cancelled, nseq, target, draining, cur, left, exc, tree, top, body,
                       runl, excl, drives, amb, rleft, cleft>>
 
 \* after an exception escaped the driver call, the replayer calls stop() and drives again
 TResume == /\ mode = "top" /\ mode' = "run" /\ target' = target + 1
-           /\ UNCHANGED <<cfgv, clock, queue, cancelled, nseq, draining, cur, left, exc, tree, top, body,
+           /\ UNCHANGED <<cfgv, retc, clock, queue, cancelled, nseq, draining, cur, left, exc, tree, top, body,
                           runl, excl, drives, amb, rleft, cleft>>
 
 (* ---- the inner scheduler's run loop ---------------------------------------------------- *)
@@ -153,7 +159,7 @@ LoopPick == /\ mode = "run" /\ cur.id = 0 /\ Eligible # {}
                        /\ cur' = e /\ left' = prof.body
                        /\ body' = [body EXCEPT ![e.id] = Append(@, <<>>)]   \* a new invocation
                        /\ UNCHANGED amb
-            /\ UNCHANGED <<cfgv, cancelled, nseq, mode, target, draining, exc, tree, top, excl, drives, rleft, cleft>>
+            /\ UNCHANGED <<cfgv, retc, cancelled, nseq, mode, target, draining, exc, tree, top, excl, drives, rleft, cleft>>
 
 \* when advance_to(target) has returned and no periodic node is alive any more ("periodic work
 \* stops"), the replayer finally calls start(): it must return, having run whatever was left
@@ -164,7 +170,7 @@ LoopExit == /\ mode = "run" /\ cur.id = 0 /\ Eligible = {}
                ELSE mode' = "done" /\ UNCHANGED draining
             /\ clock' = IF Unbounded THEN clock ELSE Max(clock, target)
             /\ drives' = Append(drives, [clock |-> IF draining THEN NoClock ELSE clock', n |-> Len(ran), esc |-> 0])
-            /\ UNCHANGED <<cfgv, queue, cancelled, nseq, target, cur, left, exc, tree, top, body, runl, excl,
+            /\ UNCHANGED <<cfgv, retc, queue, cancelled, nseq, target, cur, left, exc, tree, top, body, runl, excl,
                            amb, rleft, cleft>>
 
 (* ---- what a running action does -------------------------------------------------------- *)
@@ -176,14 +182,20 @@ ASched == \E kd \in Kinds :
             /\ Running /\ left > 0 /\ nkind[cur.id] = "one"
             /\ Enqueue(kd[1], kd[2], depth[cur.id] + 1)
             /\ AddCmd(Cmd("sched_" \o kd[1], kd[2], nextId)) /\ left' = left - 1
-            /\ UNCHANGED <<cfgv, clock, cancelled, mode, target, draining, cur, exc, top, runl, excl, drives, amb,
+            /\ UNCHANGED <<cfgv, retc, clock, cancelled, mode, target, draining, cur, exc, top, runl, excl, drives, amb,
                            rleft, cleft>>
+
+\* disposing the handle of an action that has already run disposes what that action returned - the
+\* handle of a child - and so on down the chain (that is the wrapped scheduler's behaviour, and the catch
+\* layer must hand the returned disposable through)
+RECURSIVE Chain(_)
+Chain(j) == IF j = 0 THEN {} ELSE {j} \cup Chain(retc[j])
 
 ACancel == \E j \in 1..(nextId - 1) :
             /\ Running /\ left > 0 /\ cleft > 0
-            /\ cancelled' = cancelled \cup {j}
+            /\ cancelled' = cancelled \cup Chain(j)
             /\ AddCmd(Cmd("cancel", j, 0)) /\ left' = left - 1 /\ cleft' = cleft - 1
-            /\ UNCHANGED <<cfgv, clock, queue, nseq, mode, target, draining, cur, exc, tree, top, runl, excl,
+            /\ UNCHANGED <<cfgv, retc, clock, queue, nseq, mode, target, draining, cur, exc, tree, top, runl, excl,
                            drives, amb, rleft>>
 
 \* the two tokens are interchangeable, so the first raise of a program uses token 1
@@ -192,7 +204,7 @@ ARaise == \E e \in Exc :
             /\ (e = 1 \/ \E i \in 1..Len(raises) : raises[i][3] = 1)
             /\ exc' = e /\ raises' = Append(raises, <<cur.id, cur.k, e>>)
             /\ AddCmd(Cmd("raise", e, 0)) /\ rleft' = rleft - 1 /\ left' = 0
-            /\ UNCHANGED <<cfgv, clock, queue, cancelled, nseq, mode, target, draining, cur, tree, top, runl,
+            /\ UNCHANGED <<cfgv, retc, clock, queue, cancelled, nseq, mode, target, draining, cur, tree, top, runl,
                            handler, drives, amb, cleft>>
 
 \* normal return; a periodic action returned state+1 and its next tick is one period after this one
@@ -203,8 +215,24 @@ AEnd == /\ Running
                 /\ nseq' = nseq + 1
            ELSE UNCHANGED <<queue, nseq>>
         /\ cur' = NoEntry /\ left' = 0
-        /\ UNCHANGED <<cfgv, clock, cancelled, mode, target, draining, exc, tree, top, body, runl, excl, drives,
+        /\ UNCHANGED <<cfgv, retc, clock, cancelled, mode, target, draining, exc, tree, top, body, runl, excl, drives,
                        amb, rleft, cleft>>
+
+\* `return scheduler.schedule_xxx(...)`: a one-shot action whose last command scheduled a child returns
+\* that child's handle (offered in the profiles named in RetProfiles, which all have cancels - otherwise
+\* nothing can observe it);
+\* if the action's own handle was disposed while it ran, the returned handle is disposed at once
+IsSched(c) == c.c \in {"sched_imm", "sched_rel", "sched_abs", "sched_per"}
+AEndRet == /\ Running /\ nkind[cur.id] = "one" /\ prof.cancels > 0 /\ prof.name \in RetProfiles
+           /\ LET cs == body[cur.id][cur.k] IN
+              /\ Len(cs) > 0 /\ IsSched(cs[Len(cs)])
+              /\ LET c == cs[Len(cs)].b IN
+                 /\ retc' = [retc EXCEPT ![cur.id] = c]
+                 /\ cancelled' = IF cur.id \in cancelled THEN cancelled \cup {c} ELSE cancelled
+                 /\ AddCmd(Cmd("ret", c, 0))
+           /\ cur' = NoEntry /\ left' = 0
+           /\ UNCHANGED <<cfgv, clock, queue, nseq, mode, target, draining, exc, tree, top, runl, excl, drives,
+                          amb, rleft, cleft>>
 
 \* the catch layer around the running entry sees the exception: handler call, then verdict
 ACatch == /\ mode = "run" /\ cur.id # 0 /\ exc # 0
@@ -215,9 +243,9 @@ ACatch == /\ mode = "run" /\ cur.id # 0 /\ exc # 0
              ELSE /\ mode' = "top"                                \* propagates out of start()/advance_to()
                   /\ drives' = Append(drives, [clock |-> clock, n |-> Len(ran), esc |-> Len(raises)])
           /\ cur' = NoEntry /\ left' = 0 /\ exc' = 0
-          /\ UNCHANGED <<cfgv, clock, queue, nseq, target, draining, tree, top, body, runl, raises, amb, rleft, cleft>>
+          /\ UNCHANGED <<cfgv, retc, clock, queue, nseq, target, draining, tree, top, body, runl, raises, amb, rleft, cleft>>
 
-Next == TSched \/ TGo \/ TResume \/ LoopPick \/ LoopExit \/ ASched \/ ACancel \/ ARaise \/ AEnd \/ ACatch
+Next == TSched \/ TGo \/ TResume \/ LoopPick \/ LoopExit \/ ASched \/ ACancel \/ ARaise \/ AEnd \/ AEndRet \/ ACatch
 
 Spec == Init /\ [][Next]_vars
 
@@ -261,6 +289,8 @@ Fifo == \A i, j \in 1..Len(ran) :
 \* an entry with a smaller due time runs later only if it was enqueued after the other had started
 DueOrder == \A i, j \in 1..Len(ran) :
           (i < j /\ meta[j][1] < meta[i][1]) => meta[j][3] >= i
+\* a disposed handle takes the returned handle with it
+ReturnedHandleCancels == \A j \in 1..prof.nodes : (j \in cancelled /\ retc[j] # 0) => retc[j] \in cancelled
 \* state passing: a one-shot action receives the state it was scheduled with
 StatePassed == \A i \in 1..Len(ran) : nkind[ran[i][1]] = "one" => ran[i][4] = 100 + ran[i][1]
 \* no raise: the catch layer is invisible - no handler call, one driver call that returns normally
